@@ -140,7 +140,8 @@ func (c *Ctx) Roles() *Roles {
 			if ngo >= 3 && r.Start == nil {
 				r.Start = fn
 			}
-			if len(c.calls(fn, "sync", "WaitGroup", "Wait")) > 0 && len(c.calls(fn, pkgService, "buffer", "Close")) > 0 {
+			// teardown: joins the goroutines and closes the rings (the closes may sit in a helper)
+			if ngo == 0 && len(c.calls(fn, "sync", "WaitGroup", "Wait")) > 0 && len(c.hostedCalls(fn, mMethod(pkgService, "buffer", "Close"), 2)) > 0 {
 				r.Stop = fn
 			}
 			if len(c.calls(fn, pkgService, "buffer", "WriteWait")) > 0 {
